@@ -246,18 +246,20 @@ impl<const N: usize> UdpAssociateContext<N> {
                             let resolved_addr = match peer_addr.to_socket_addr() {
                                 Ok(addr) => addr,
                                 Err(e) => {
+                                    // this datagram is lost, the association lives on
                                     error!("[udp] DNS resolve failed; peer={peer_addr}, error={e}");
-                                    break;
+                                    continue;
                                 },
                             };
                             if !self.validate_packet_id(session.packet_id) {
+                                // a duplicate or stale packet is dropped, the association lives on
                                 error!("[udp] packet_id {} out of window; client={}, peer={}", session.packet_id, self.client_addr, peer_addr);
-                                break;
+                                continue;
                             }
                             self.user.clone_from(&session.user);
                             if let Err(e) = self.outbound.send_to(&content, resolved_addr).await {
                                 error!("[udp] send peer failed; client={}, peer={}/{}, error={}", self.client_addr, peer_addr, resolved_addr, e);
-                                break;
+                                continue;
                             }
                         }
                         None => {
